@@ -63,4 +63,9 @@ theorem be_fromBE' (w : Nat) (bs : Bytes) (h : bs.length = w) : be w (fromBE bs)
 theorem pad12_length (a : Bytes) : (pad12 a).length = 32 := by
   simp [pad12, zeros]; omega
 
+theorem isPrefixOf_append (p r : Bytes) : isPrefixOf p (p ++ r) = true := by
+  induction p with
+  | nil => cases r <;> rfl
+  | cons a p ih => simp [isPrefixOf, ih]
+
 end Cctp
